@@ -47,7 +47,13 @@ def load_known():
 
 def matches(sig, pattern):
     """every key of the pattern must be present in the signature with an equal value"""
-    return all(sig.get(k) == v for k, v in pattern.items())
+    for k, v in pattern.items():
+        if k.endswith("_has"):          # every listed item must be in the signature's list
+            if not set(v) <= set(sig.get(k[:-4] + "_on", [])):
+                return False
+        elif sig.get(k) != v:
+            return False
+    return True
 
 
 def write_evidence(res, wall):
